@@ -21,6 +21,12 @@ func (xp xpathImpl) resolvePath(seg *xpath.Path, s *Selection) (*Selection, erro
 		if up == nil {
 			return nil, fmt.Errorf("'..' leads above the root in xpath")
 		}
+		if up.Constraints != s.Constraints {
+			// keep looking with the constraints of this evaluation
+			withConstraints := *up
+			withConstraints.Constraints = s.Constraints
+			up = &withConstraints
+		}
 		if seg.Next == nil {
 			return up, nil
 		}
